@@ -112,8 +112,26 @@ def check(run):
     run.rule('D2', 'check_block_header_proof accepts only when the root level-0 hash equals the block hash; the state hash it returns is committed by that hash (occurs in its term)', 8)
     run.rule('D3', 'check_account_proof: two roots; header proof; state root hash = header state hash; proved account level-0 hash = representation hash of the CLAIMED state', 8)
     run.rule('D4', 'check_shard_proof returns early only for identical block ids; wrong workchain / root count / block info / state hash raise', 4)
+    run.rule('D0', 'completeness ingredients: what the checks compare is the specified hash - an ordinary cell above pruned sub-trees carries the union of its children\'s level masks in d1, and get_hash(l) / get_depth(l) of a cell with level mask m select stored entry popcount(m & (2^l - 1))', 60)
     run.trust('CPython ast', 'checker interpreter', 'sa/rope.py', 'distinct SHA-256 terms denote distinct digests')
     run.exhaustive = True
+    from .C02 import ordinary_mask_union, mk_child
+    wcell = prog.where(prog.method('Cell', '__init__'))
+    ordinary_mask_union(run, prog, 'D0', wcell)
+    for m in range(8):
+        it0 = Interp(prog)
+        kid = mk_child(it0, 0, m)
+        for l in range(4):
+            want = bin(m & ((1 << l) - 1)).count('1')
+            try:
+                h = cm.call_method(it0, kid, 'get_hash', K(l))
+                d = cm.call_method(it0, kid, 'get_depth', K(l))
+                good = h is kid.attrs['_hashes'].items[want] and d is kid.attrs['_depths'].items[want]
+                why = f'get_hash -> {vrepr(h)[:20]}, get_depth -> {vrepr(d)[:12]}; specification: stored entry {want}'
+            except RaiseEx as e:
+                good, why = False, f'raises {e}'
+            run.check(good, 'D0', 'Cell.get_hash/get_depth[level selection]' if not good else f'level-select[mask={m:03b},l={l}]', f'cell with level mask {m:03b}, level {l}: {why}', wcell)
+            run.evaluations += 1
     f_cp = prog.func('check_proof')
     f_hdr = prog.func('check_block_header_proof')
     f_acc = prog.func('check_account_proof')
